@@ -75,6 +75,12 @@ func (g *G) BoolOperand(ctx *xdoc.Node) xast.Expr {
 	return &xast.Call{Name: "boolean", Args: []xast.Expr{g.anyOperand(ctx, false)}}
 }
 
+// nearPairs: neighbouring doubles, and sums and products that miss the "obvious" decimal by an ulp.
+var nearPairs = [][2]string{
+	{"0.1 + 0.2", "0.3"}, {"0.30000000000000004", "0.3"}, {"1", "1.0000000000000002"}, {"9007199254740992", "9007199254740994"},
+	{"9007199254740992", "9007199254740993"}, {"1.1 * 1.1", "1.21"}, {"0.1 * 3", "0.3"}, {"100", "100.00000000000001"}, {"0.5 + 0.25", "0.75"}, {"4.35 * 100", "435"},
+}
+
 // Comparison draws one comparison from exactly the operand matrix C07 states.
 func (g *G) Comparison(ctx *xdoc.Node) *xast.Bin {
 	ns := func() xast.Expr { return g.FlatArg(xref.NodeSet{ctx}) }
@@ -86,6 +92,23 @@ func (g *G) Comparison(ctx *xdoc.Node) *xast.Bin {
 	}
 	switch g.intn(10, "cmpkind") {
 	case 0, 1:
+		if g.chance(2, "neighbours") {
+			// two numbers one or two ulps apart (or the same number reached two ways): equal
+			// means equal as IEEE 754 doubles, nothing more generous and nothing less
+			pair := nearPairs[g.intn(len(nearPairs), "nearpair")]
+			mk := func(t string) xast.Expr {
+				if strings.ContainsAny(t, "+*") {
+					parts := strings.FieldsFunc(t, func(r rune) bool { return r == '+' || r == '*' })
+					op := "+"
+					if strings.Contains(t, "*") {
+						op = "*"
+					}
+					return &xast.Bin{Op: op, L: &xast.Num{Lit: strings.TrimSpace(parts[0])}, R: &xast.Num{Lit: strings.TrimSpace(parts[1])}}
+				}
+				return &xast.Num{Lit: t}
+			}
+			return flip(&xast.Bin{Op: g.pick(cmpOps, "op"), L: mk(pair[0]), R: mk(pair[1])})
+		}
 		return &xast.Bin{Op: g.pick(cmpOps, "op"), L: g.NumOperand(ctx), R: g.NumOperand(ctx)}
 	case 2, 3, 4:
 		return flip(&xast.Bin{Op: g.pick(cmpOps, "op"), L: ns(), R: g.NumOperand(ctx)})
